@@ -30,8 +30,18 @@ def base_programs(seed, n, **opts):
         i += 1
         p = gen_program(rng, **o)
         p['gen_seed'] = seed * 7919 + i - 1
+        returns_error_object(p, rng)
         out.append(p)
     return out
+
+
+def returns_error_object(p, rng, rate=0.12):
+    """Some operations RETURN an exception instance (a validator handing back its error object): that is a result, not a failure."""
+    from vlib.values import UserError
+    if rng.random() < rate:
+        body = [st for st in p['body'] if st['op'] not in ('return', 'raise')]
+        p['body'] = body + [{'op': 'return', 'expr': {'lit': UserError('returned, not raised')}}]
+        p['returns_error_object'] = True
 
 
 def dry_trace(prog):
